@@ -148,19 +148,32 @@ pub fn markers(file: &File) -> Vec<(u32, String)> {
         path: Vec<String>,
         out: Vec<(u32, String)>,
     }
-    fn marker(a: &Attribute) -> Option<u32> {
-        if !a.path().is_ident("doc") {
-            return None;
-        }
+    fn marker(a: &Attribute) -> Vec<u32> {
         let s = ts(a);
-        let pos = s.find("vp-")?;
-        let digits: String = s[pos + 3..].chars().take_while(|c| c.is_ascii_digit()).collect();
-        digits.parse().ok()
+        if a.path().is_ident("doc") {
+            let Some(pos) = s.find("vp-") else { return vec![] };
+            let digits: String = s[pos + 3..].chars().take_while(|c| c.is_ascii_digit()).collect();
+            return digits.parse().ok().into_iter().collect();
+        }
+        if a.path().is_ident("derive") {
+            // derive markers: identifiers `Vp<N><Suffix>` inside the list
+            let mut out = vec![];
+            for tok in s.split(|c: char| !c.is_alphanumeric() && c != '_') {
+                if let Some(rest) = tok.strip_prefix("Vp") {
+                    let digits: String = rest.chars().take_while(|c| c.is_ascii_digit()).collect();
+                    if let Ok(n) = digits.parse() {
+                        out.push(n);
+                    }
+                }
+            }
+            return out;
+        }
+        vec![]
     }
     impl V {
         fn note(&mut self, attrs: &[Attribute]) {
             for a in attrs {
-                if let Some(n) = marker(a) {
+                for n in marker(a) {
                     self.out.push((n, self.path.join("::")));
                 }
             }
